@@ -247,9 +247,12 @@ class Ctx:
         if isinstance(goal, bool):
             goal = z3.BoolVal(goal)
         g = z3.simplify(goal)
-        ob = Obligation(clause, g, list(self.pc), tuple(k for k, _ in self.trail), meta, list(self.spec_apps))
-        ob.entry = getattr(self, "entry_args", None)
-        self.obligations.append(ob)
+        # a conjunction is proved conjunct by conjunct (smaller queries; same clause name)
+        parts = g.children() if z3.is_and(g) else [g]
+        for part in parts:
+            ob = Obligation(clause, part, list(self.pc), tuple(k for k, _ in self.trail), meta, list(self.spec_apps))
+            ob.entry = getattr(self, "entry_args", None)
+            self.obligations.append(ob)
         if assume_after:
             self.assume(g)
 
